@@ -67,8 +67,26 @@ def run_history(darsia, rng, tid, kind, dim, hist, h, payload, as_image, use_vox
     base = tuple(x // 4 for x in n)
     nsl = {"scalar": (), "vector": (2,), "series": (3,), "vseries": (2, 2)}[payload]
     ev = []
+    # per history every resolution name stands for one resolution; besides the isotropic factor it may be refined along
+    # some axes and kept / coarsened along others (factors per axis in {1/2, 1, 2}, not all 1; 2-D and 3-D)
+    factors = {}
+    for rname in set(hist):
+        f = tuple(RES[rname] for _ in n)
+        if rname != "native" and dim >= 2 and rng.random() < 0.4:
+            while True:
+                f = tuple(rng.choice([0.5, 1, 2]) for _ in n)
+                if any(x != 1 for x in f) and f not in factors.values():
+                    break
+        factors[rname] = f
+    payload0, as_image0 = payload, as_image
     for i, rname in enumerate(hist):
-        r = tuple(int(x * RES[rname]) for x in n)
+        r = tuple(int(x * fx) for x, fx in zip(n, factors[rname]))
+        # payload layout and input form vary from call to call on the same geometry object
+        if i > 0 and rng.random() < 0.5:
+            payload, as_image = rng.choice(["scalar", "vector", "series", "vseries"]), rng.random() < 0.5
+        else:
+            payload, as_image = payload0, as_image0
+        nsl = {"scalar": (), "vector": (2,), "series": (3,), "vseries": (2, 2)}[payload]
         # field: constant on the coarsest partition, per slice
         nslices = int(np.prod(nsl)) if nsl else 1
         fields = [np.array([rng.randint(0, 5) for _ in range(int(np.prod(base)))], dtype=float).reshape(base) for _ in range(nslices)]
@@ -115,6 +133,10 @@ def run_history(darsia, rng, tid, kind, dim, hist, h, payload, as_image, use_vox
     return ev
 
 
+def _exp10(rel):
+    return int(max(-17, min(3, math.ceil(math.log10(max(rel, 1e-17))))))
+
+
 def normalize_event(darsia, rng, tid, dim):
     """normalize(img, ref): per time step and component the integral of the result equals the reference's.  Signed integer data
     (difference images have negative net integrals), all payload layouts; precondition: no integral of img is zero."""
@@ -140,14 +162,25 @@ def normalize_event(darsia, rng, tid, dim):
 
     signed = rng.random() < 0.8
     a_arr, r_arr = im(signed), im(signed)
-    a, ref = darsia.Image(a_arr.copy(), **kw), darsia.Image(r_arr.copy(), **kw)
-    e = {"tid": tid, "op": "normalize", "layout": layout, "ia": integrals(a_arr), "iref": integrals(r_arr), "raised": 0, "relexp": [], "ratioexp": []}
+    fdt = rng.choice([np.float64, np.float64, np.float32])      # floating pixel types (integer-valued data: exact in both)
+    a, ref = darsia.Image(a_arr.astype(fdt), **kw), darsia.Image(r_arr.astype(fdt), **kw)
+    e = {"tid": tid, "op": "normalize", "layout": layout, "ia": integrals(a_arr), "iref": integrals(r_arr), "raised": 0, "relexp": [], "ratioexp": [],
+         "dtype": np.dtype(fdt).name, "inputs_unchanged": 0, "scaledexp": 3, "dtype_kept": 0}
+    if rng.random() < 0.5:      # the geometry object has been used before (at another resolution, if it supports it)
+        try:
+            geom.integrate(np.ones(tuple(max(1, x // 2) for x in n)))
+        except Exception:  # noqa
+            pass
     try:
         out, ratio = geom.normalize(a, ref, return_ratio=True)
     except Exception as ex:  # noqa
         e["raised"] = 1
         e["error"] = repr(ex)[:200]
         return e
+    e["inputs_unchanged"] = int(np.array_equal(a.img, a_arr.astype(fdt)) and np.array_equal(ref.img, r_arr.astype(fdt)) and a.img.dtype == fdt and ref.img.dtype == fdt)
+    e["dtype_kept"] = int(out.img.dtype == fdt)
+    rb = np.broadcast_to(np.asarray(ratio, dtype=float), tail) if tail else float(ratio)
+    e["scaledexp"] = _exp10(float(np.abs(out.img.astype(float) - a_arr * rb).max()) / max(1e-300, float(np.abs(a_arr * rb).max())))
     vol = float(np.prod(h))
     i_out = np.sum(out.img * wfull, axis=tuple(range(dim))).ravel()
     ratio = np.broadcast_to(np.asarray(ratio, dtype=float), np.zeros(tail).shape).ravel() if tail else np.atleast_1d(np.asarray(ratio, dtype=float))
